@@ -78,8 +78,78 @@ def _is_message_context(stack):
     return False
 
 
+class _Py3Fold(ast.NodeTransformer):
+    """The models transcribe what the functions compute on Python 3 (the only interpreter the checks run): ``six.PY2``
+    is False and ``six.PY3`` is True there, so a test on them is folded and the dead branch dropped before the tokens
+    are read -- removing a dead Python 2 shim from the source then leaves the table unchanged.  Only these two
+    names are folded, and only in `if` / `elif` / conditional-expression tests, `not`, `and`, `or`."""
+    CONST = {'PY2': False, 'PY3': True}
+
+    def visit_Attribute(self, n):
+        self.generic_visit(n)
+        if isinstance(n.value, ast.Name) and n.value.id == 'six' and n.attr in self.CONST \
+                and isinstance(n.ctx, ast.Load):
+            return ast.copy_location(ast.Constant(self.CONST[n.attr]), n)
+        return n
+
+    @staticmethod
+    def _const(n):
+        return isinstance(n, ast.Constant) and isinstance(n.value, bool)
+
+    def visit_UnaryOp(self, n):
+        self.generic_visit(n)
+        if isinstance(n.op, ast.Not) and self._const(n.operand):
+            return ast.copy_location(ast.Constant(not n.operand.value), n)
+        return n
+
+    def visit_BoolOp(self, n):
+        self.generic_visit(n)
+        absorbing = isinstance(n.op, ast.Or)          # True absorbs `or`, False absorbs `and`
+        vals = []
+        for v in n.values:
+            if self._const(v):
+                if v.value is absorbing:
+                    vals.append(v)                    # evaluation stops here with this value
+                    break
+                continue                              # neutral element: dropped
+            vals.append(v)
+        if not vals:
+            return ast.copy_location(ast.Constant(not absorbing), n)
+        if len(vals) == 1:
+            return vals[0]
+        if self._const(vals[-1]) and len(vals) > 1:
+            # `x and False`: x is still evaluated; keep it as it is (not folded)
+            n.values = vals
+            return n
+        n.values = vals
+        return n
+
+    def visit_If(self, n):
+        self.generic_visit(n)
+        if self._const(n.test):
+            return (n.body if n.test.value else n.orelse) or None
+        return n
+
+    def visit_IfExp(self, n):
+        self.generic_visit(n)
+        if self._const(n.test):
+            return n.body if n.test.value else n.orelse
+        return n
+
+
+def py3_fold(fn):
+    fn = _Py3Fold().visit(ast.parse(ast.unparse(fn)).body[0])
+    ast.fix_missing_locations(fn)
+    for node in ast.walk(fn):                          # a block emptied by folding
+        for f in ('body', 'orelse', 'finalbody'):
+            if isinstance(getattr(node, f, None), list) and f == 'body' and not getattr(node, f):
+                node.body = [ast.Pass()]
+    return fn
+
+
 def function_tokens(fn):
     toks = []
+    fn = py3_fold(fn)
     body = fn.body
     if body and isinstance(body[0], ast.Expr) and isinstance(getattr(body[0], 'value', None), ast.Constant) \
             and isinstance(body[0].value.value, str):
